@@ -61,7 +61,8 @@ def waiter_claims(p, h, w, others_done=True):
         # ... in one check: the two readings are not separated by a wait (a reading taken before parking says nothing
         # about the moment of resumption)
         if lm and lb:
-            im, ib = p.log.index(lm[-1]), p.log.index(lb[-1])
+            im = max(i for i, e in enumerate(p.log) if e[0] == 'loaded' and e[1] == w.name and e[2] == 'messages')
+            ib = max(i for i, e in enumerate(p.log) if e[0] == 'loaded' and e[1] == w.name and e[2] == 'bytes')
             lo, hi = min(im, ib), max(im, ib)
             waited = any(e[0] == 'op' and e[1] == w.name and str(e[2]).startswith('Notified::poll') for e in p.log[lo:hi])
             out.append(Claim('%s: the two readings it resumed on belong to one check (no wait between them)' % w.name, not waited))
